@@ -302,6 +302,18 @@ mod verif_driver_redeemers {
                 witness("c14_cardano/mint_redeemer_index#reachable-panic", "mint_redeemer_index", format!("{} (mint and burn of 3 each) class=redeemer-of-a-cancelled-policy", describe(&c)), "panic".into(), "Ok or Err");
             }
         }
+        // ---- a policy runs once per transaction: a mint and a burn block of ONE policy that carry DIFFERENT redeemers cannot both
+        // be honoured - the transaction is refused; neither redeemer is silently lost ----
+        for (p, other) in [(0xaau8, None), (0xbb, Some(0xaau8))] {
+            n += 1;
+            let mut mints = vec![(p, Some(1i128))];
+            if let Some(o) = other { mints.insert(0, (o, None)); }
+            let c = Case { inputs: one.clone(), mints, burns: vec![(p, Some(2))], ..Default::default() };
+            let tx = build(&c);
+            if let Ok(got) = produced(&tx) {
+                witness("c08_cardano/compile_redeemers#postcondition", "compile_redeemers", format!("{} class=two-redeemers-for-one-policy", describe(&c)), format!("Ok with {got:?}: one of the two redeemers is gone"), "an error: the policy can be given one redeemer only");
+            }
+        }
         // ---- the DATA of a redeemer is the template's expression: a field-less case other than the first keeps its constructor
         // index (it is not the unit value), on every purpose ----
         for ctor in [0usize, 1, 2, 7] {
